@@ -163,6 +163,72 @@ def mktmp():
     return tempfile.mkdtemp(prefix="verif-", dir=base)
 
 
+# properties decided by several harnesses (parts); each part writes evidence/<ID>.part-<name>.json
+PARTS = {
+    "C02": ["c02", "c02b"],
+    "C03": ["c03", "c03b"],
+}
+
+
+def run_parts(prop, args):
+    """Runs every existing part of a property, merges the evidence, exits with the worst code."""
+    parts = [h for h in PARTS.get(prop, [prop.lower()]) if os.path.isdir(os.path.join(VERIF, "harness", h))]
+    if "--replay" in args:
+        # a replay artefact names the harness that produced it
+        try:
+            h = json.load(open(args[args.index("--replay") + 1])).get("harness", "")
+        except Exception:
+            h = ""
+        if h in parts:
+            parts = [h]
+        else:
+            parts = parts[:1]
+    if len(parts) <= 1:
+        os.execv(sys.executable, [sys.executable, __file__, "run", parts[0] if parts else prop.lower()] + args)
+    worst = 0
+    t0 = time.time()
+    for h in parts:
+        pf = os.path.join(VERIF, "evidence", "%s.part-%s.json" % (prop, h))
+        if os.path.exists(pf):
+            os.remove(pf)
+        env = dict(os.environ)
+        env["VERIF_PART"] = h
+        r = subprocess.run([sys.executable, __file__, "run", h] + args, env=env)
+        if r.returncode == 2:
+            sys.exit(2)
+        worst = max(worst, r.returncode)
+    merged = None
+    for h in parts:
+        pf = os.path.join(VERIF, "evidence", "%s.part-%s.json" % (prop, h))
+        if not os.path.exists(pf):
+            sys.stderr.write("engine error: part %s wrote no evidence\n" % h)
+            sys.exit(2)
+        ev = json.load(open(pf))
+        os.remove(pf)
+        cov = ev.get("coverage", {})
+        if merged is None:
+            merged = ev
+            merged["coverage"] = dict(cov)
+            merged["coverage"]["parts"] = {h: cov}
+            merged["assumptions"] = list(ev.get("assumptions") or [])
+            continue
+        mc = merged["coverage"]
+        mc["parts"][h] = cov
+        for k in ("states", "transitions", "traces_validated_against_impl", "evaluations", "distinct_nontrivial"):
+            if k in cov:
+                mc[k] = mc.get(k, 0) + cov[k]
+        # a fault-enumeration part counts its executed cases as traces on the implementation
+        if "traces_validated_against_impl" not in cov and "evaluations" in cov:
+            mc["traces_validated_against_impl"] = mc.get("traces_validated_against_impl", 0) + cov["evaluations"]
+        mc["samples"] = list(mc.get("samples") or []) + list(cov.get("samples") or [])[:3]
+        mc["exhaustive"] = bool(mc.get("exhaustive", True)) and bool(cov.get("exhaustive", True))
+        merged["assumptions"] += list(ev.get("assumptions") or [])
+        merged["violations"] = merged.get("violations", 0) + ev.get("violations", 0)
+    merged["wall_s"] = time.time() - t0
+    json.dump(merged, open(os.path.join(VERIF, "evidence", prop + ".json"), "w"), indent=1)
+    sys.exit(worst)
+
+
 def main():
     if len(sys.argv) < 2:
         print(__doc__)
@@ -179,6 +245,8 @@ def main():
         finally:
             shutil.rmtree(tmp, ignore_errors=True)
         return
+    if cmd == "check":
+        run_parts(sys.argv[2], sys.argv[3:])
     if cmd == "run":
         harness = sys.argv[2]
         args = sys.argv[3:]
